@@ -152,6 +152,14 @@ def process(prog: dict, opts: dict) -> dict:
         traces.append({"id": f"{prog['id']}#{grain[0]}{k}", "events": res.events,
                        "final": final_of(res), "grain": grain})
     out["runs"], out["traces"] = runs, traces
+    # time stepping: the same partition object executed three times in a row
+    if opts.get("reexecute", True) and all(
+            all(s["status"] == "ok" for s in r.get("status", [{"status": "x"}])) for r in runs):
+        try:
+            out["reexec"] = dh.reexecute(pl, times=3, seed=int(rng.integers(2 ** 31)))
+        except fakempi.Hang as ex:
+            out["reexec"] = [{"clause": "reexecution_failed", "rank": -1, "step": 0,
+                              "what": f"re-execution hangs: {ex}"}]
     dfs_runs = opts.get("dfs_runs", 0)
     if dfs_runs:
         bad_dfs: list[dict] = []
